@@ -79,7 +79,15 @@ class Path:
         """'ok' | 'err' | 'value' | 'abort' | 'cut' | 'dep' (returns another call's Result)"""
         if self.exit != "return":
             return self.exit
-        return classify_ret(self.ret, self.fn)
+        k = classify_ret(self.ret, self.fn)
+        if k == "dep":
+            # the Result handed on is one this path has already found to be an Err (`r.map(f)` on its Err branch,
+            # `match r { Err(e) => return r, .. }`): an error exit, not a success that depends on the callee
+            for c in self.conds:
+                at, o = c[0], c[1]
+                if tag(at) == "op" and payload(at)[0] == "is_ok" and kids(at)[0] == self.ret:
+                    return "err" if o is False else k
+        return k
 
 
 def classify_ret(v, fn=None):
@@ -1284,7 +1292,7 @@ class _Run:
             src = kids(src)[0]
         if not (tag(src) == "call" and str(payload(src)[0]).split("::")[-1] == "iter" and len(kids(src)) == 1):
             return None
-        cf = self.world.by_pretty.get(payload(clo)[0])
+        cf = self.world.fn_named(payload(clo)[0])
         if cf is None or cf.arg_count != 2:
             return None
         try:
@@ -1307,7 +1315,7 @@ class _Run:
 
     def closure_target(self, f):
         if tag(f) == "closure":
-            return self.world.by_pretty.get(payload(f)[0])
+            return self.world.fn_named(payload(f)[0])
         if tag(f) == "fnref":
             # a function item handed to a combinator (`.map(wrap)`): a workspace function is called like a closure
             ft = self.world.fns.get(payload(f)[1])
